@@ -179,6 +179,21 @@ fn exec(sh: &Shared, stack: &mut Vec<LocalH>, i: usize, op: &Op) {
             slots[*slot as usize] = SlotV::Span(sp);
         }
         Op::AddProps { slot, n } => span!(slot).add_properties(|| props(*n)),
+        Op::AddEvent { slot, n } if *n > 0 && i % 3 == 0 => {
+            #[allow(deprecated)]
+            Event::add_to_parent("e", span!(slot), || props(*n).into_iter().map(|(k, v)| (k.into(), v.into())).collect::<Vec<(std::borrow::Cow<'static, str>, std::borrow::Cow<'static, str>)>>());
+        }
+        Op::LocalAddEvent { n } if *n > 0 && i % 3 == 0 => {
+            #[allow(deprecated)]
+            Event::add_to_local_parent("le", || props(*n).into_iter().map(|(k, v)| (k.into(), v.into())).collect::<Vec<(std::borrow::Cow<'static, str>, std::borrow::Cow<'static, str>)>>());
+        }
+        Op::EventNew { n, .. } => {
+            let mut ev = Event::new("prepared");
+            if *n > 0 {
+                ev = ev.with_properties(|| props(*n));
+            }
+            LocalSpan::add_event(ev);
+        }
         Op::AddEvent { slot, n } => {
             let mut ev = Event::new("e");
             if *n > 0 {
